@@ -200,6 +200,11 @@ func (g *stmtGen) stmt(inLoop, inFunc bool) {
 		g.line("_, ok%d = m[\"zz\"]", id)
 	case 4:
 		g.line("sink(one(), add(one(), one()))")
+		// make with a size or capacity hint that is computed by calls: the hint is consumed by the statement
+		g.line("mk%d := make(map[string]int, len(s)+one())", id)
+		g.line("mk%d[\"k\"] = one()", id)
+		g.line("ms%d := make([]int, len(s)+add(one(), 1))", id)
+		g.line("_, _ = mk%d, ms%d", id, id)
 	case 5:
 		g.line("x, y = y, x")
 		g.line("s[0], s[1] = s[1], s[0]")
